@@ -128,9 +128,15 @@ def run(ctx):
 
 
 def parse_clause(script, b):
-    """Parser defects that stop a valid program before it runs would be classified here by re-running a
-    token-identical variant. The three found so far (`esac )`, `( (`, `! exit n`) were repaired in /repo
-    ("fixed" entries in known_findings.json), so nothing is excused any more."""
+    """Defects of the parser that stop a valid program before it runs are not part of the flow model:
+    re-run brush on a token-identical variant that avoids the construct; the clause explains the
+    divergence only if the variant behaves like bash. (`esac )` and `! exit n` were repaired in /repo;
+    `( (` could not be: a snapshot test pins the defective parse.)"""
+    if "( (" in script:
+        v = script.replace("( (", "(\n(")
+        bv, ov = lib.run_both(v, timeout=20)
+        if canon(bv) == canon(ov):
+            return "nested_subshell_as_arith"
     return None
 
 
